@@ -157,21 +157,48 @@ theorem const_head37 (useHex : Int → Bool) (t : Ty) (c : Const) :
   | arr es => exact ⟨91, clistString useHex es ++ [93], by simp [constIdent], by decide, by decide, by decide⟩
   | vec es => exact ⟨60, clistString useHex es ++ [62], by simp [constIdent], by decide, by decide, by decide⟩
 
-/-- what follows an operand, a label reference or a stand-alone type inside a row: nothing, or the comma of the next literal -/
+/-- what may follow a label reference: nothing, or the comma of the next literal -/
 def endOK (r : Bytes) : Bool :=
   match r with
   | [] => true
   | c :: _ => c == 44
+
+/-- what may follow an operand: nothing, a comma, or ` t…` (the ` to ` of a conversion) -/
+def opEnd (r : Bytes) : Bool :=
+  match r with
+  | [] => true
+  | 44 :: _ => true
+  | 32 :: 116 :: _ => true
+  | _ => false
+
+/-- what may follow a stand-alone type: nothing, a comma, or ` [` (the incoming list of a phi) -/
+def tyEnd (r : Bytes) : Bool :=
+  match r with
+  | [] => true
+  | 44 :: _ => true
+  | 32 :: 91 :: _ => true
+  | _ => false
 
 theorem endOK_identEnd (r : Bytes) (h : endOK r = true) : identEnd r = true := by
   cases r with
   | nil => rfl
   | cons c r => simp [endOK] at h; subst h; simp [identEnd, inTail, inHead, isAlpha, isUpper, isLower, isDigit]
 
-theorem endOK_stopC (r : Bytes) (h : endOK r = true) : stopC r = true := by
-  cases r with
-  | nil => rfl
-  | cons c r => simp [endOK] at h; subst h; simp [stopC]
+theorem opEnd_identEnd (r : Bytes) (h : opEnd r = true) : identEnd r = true := by
+  unfold opEnd at h
+  split at h
+  · rfl
+  · simp [identEnd, inTail, inHead, isAlpha, isUpper, isLower, isDigit]
+  · simp [identEnd, inTail, inHead, isAlpha, isUpper, isLower, isDigit]
+  · cases h
+
+theorem opEnd_stopC (r : Bytes) (h : opEnd r = true) : stopC r = true := by
+  unfold opEnd at h
+  split at h
+  · rfl
+  · simp [stopC]
+  · simp [stopC]
+  · cases h
 
 def operandOK : Operand → Prop
   | .loc i => identOK i
@@ -183,13 +210,13 @@ theorem identString_head (i : Ident) (hi : identOK i) : ∃ rest, identString i 
   | id k => exact ⟨natDec k, rfl⟩
   | anon => exact absurd hi (by simp [identOK])
 
-theorem readOperand_operandString (useHex : Int → Bool) (t : Ty) (o : Operand) (r : Bytes) (ho : operandOK o) (hr : endOK r = true) :
+theorem readOperand_operandString (useHex : Int → Bool) (t : Ty) (o : Operand) (r : Bytes) (ho : operandOK o) (hr : opEnd r = true) :
     readOperand t (operandString useHex t o ++ r) = some (o, r) := by
   cases o with
   | loc i =>
     obtain ⟨rest, hh⟩ := identString_head i ho
     have hd : (identString i ++ r).head? = some 37 := by rw [hh]; rfl
-    simp only [operandString, readOperand, hd, beq_self_eq_true, if_true, readIdent_identString i r ho (endOK_identEnd r hr)]
+    simp only [operandString, readOperand, hd, beq_self_eq_true, if_true, readIdent_identString i r ho (opEnd_identEnd r hr)]
   | const c =>
     obtain ⟨h, rest, heq, h37, _, _⟩ := const_head37 useHex t c
     have hd : ((constIdent useHex t c ++ r).head? == some 37) = false := by
@@ -197,7 +224,7 @@ theorem readOperand_operandString (useHex : Int → Bool) (t : Ty) (o : Operand)
     have hf : csize c ≤ (constIdent useHex t c ++ r).length + 1 := by
       have := csize_le_len useHex t c; simp only [List.length_append]; omega
     simp only [operandString, readOperand, hd, Bool.false_eq_true, if_false,
-      read_const useHex c _ t r (endOK_stopC r hr) hf ho]
+      read_const useHex c _ t r (opEnd_stopC r hr) hf ho]
 
 /-- a type followed by ` ` and an operand -/
 theorem tyval_step (useHex : Int → Bool) (t : Ty) (o : Operand) (tail : Bytes) (ho : operandOK o) :
@@ -218,19 +245,73 @@ theorem tyval_step (useHex : Int → Bool) (t : Ty) (o : Operand) (tail : Bytes)
   · have := TyParse.w_le_len t
     unfold tyFuel; simp only [List.length_append]; omega
 
-/-- a stand-alone type followed by nothing or a comma -/
-theorem ty_step (t : Ty) (tail : Bytes) (hr : endOK tail = true) :
+/-- a stand-alone type followed by nothing, a comma or ` [` -/
+theorem ty_step (t : Ty) (tail : Bytes) (hr : tyEnd tail = true) :
     TyParse.parseTy (tyFuel (tyString t ++ tail)) (tyString t ++ tail) = some (t, tail) := by
   apply TyParse.parseTy_tyString_gen
-  · cases tail with
-    | nil => rfl
-    | cons c r => simp [endOK] at hr; subst hr; simp [TyParse.cont]
-  · cases tail with
-    | nil => rfl
-    | cons c r => simp [endOK] at hr; subst hr; simp [TyParse.stopG]
+  · unfold tyEnd at hr
+    split at hr
+    · rfl
+    · simp [TyParse.cont]
+    · simp [TyParse.cont]
+    · cases hr
+  · unfold tyEnd at hr
+    split at hr
+    · rfl
+    · simp [TyParse.stopG]
+    · simp [TyParse.stopG]
+    · cases hr
   · have := TyParse.w_le_len t
     unfold tyFuel; simp only [List.length_append]; omega
 
+/-! ### phi incoming lists -/
+
+def incOK (p : Operand × Ident) : Prop := operandOK p.1 ∧ identOK p.2
+
+theorem readPhis_print (useHex : Int → Bool) (cur : Ty) : ∀ (incs : List (Operand × Ident)), incs ≠ [] → (∀ p ∈ incs, incOK p) →
+    ∀ f, incs.length ≤ f → readPhis f cur (phisString useHex cur incs) = some (incs, [])
+  | [], h, _, _, _ => absurd rfl h
+  | [(o, b)], _, hp, f, hf => by
+    obtain ⟨f', rfl⟩ : ∃ f', f = f' + 1 := ⟨f - 1, by simp at hf; omega⟩
+    have ho := hp (o, b) (by simp)
+    have e : phisString useHex cur [(o, b)] = sPhiOpen ++ (operandString useHex cur o ++ (sComma ++ (identString b ++ sPhiClose))) := by
+      simp [phisString]
+    rw [e, readPhis, TyParse.stripPrefix_append]
+    have hro := readOperand_operandString useHex cur o (sComma ++ (identString b ++ sPhiClose)) ho.1 (by simp [sComma, opEnd])
+    simp only [hro]
+    simp only [sComma, List.cons_append, List.nil_append]
+    simp only [readIdent_identString b sPhiClose ho.2 (by simp [sPhiClose, identEnd, inTail, inHead, isAlpha, isUpper, isLower, isDigit])]
+    simp [sPhiClose]
+  | (o, b) :: q :: ps, _, hp, f, hf => by
+    obtain ⟨f', rfl⟩ : ∃ f', f = f' + 1 := ⟨f - 1, by simp at hf; omega⟩
+    have ho := hp (o, b) (by simp)
+    have ih := readPhis_print useHex cur (q :: ps) (by simp) (fun x hx => hp x (by simp [hx])) f' (by simp at hf ⊢; omega)
+    have e : phisString useHex cur ((o, b) :: q :: ps) =
+        sPhiOpen ++ (operandString useHex cur o ++ (sComma ++ (identString b ++ (sPhiClose ++ (sComma ++ phisString useHex cur (q :: ps)))))) := by
+      simp [phisString]
+    rw [e, readPhis, TyParse.stripPrefix_append]
+    have hro := readOperand_operandString useHex cur o (sComma ++ (identString b ++ (sPhiClose ++ (sComma ++ phisString useHex cur (q :: ps))))) ho.1 (by simp [sComma, opEnd])
+    simp only [hro]
+    simp only [sComma, List.cons_append, List.nil_append]
+    have hri := readIdent_identString b (sPhiClose ++ (44 :: 32 :: phisString useHex cur (q :: ps))) ho.2
+      (by simp [sPhiClose, identEnd, inTail, inHead, isAlpha, isUpper, isLower, isDigit])
+    simp only [hri]
+    simp [sPhiClose, ih]
+
+theorem phisString_len : ∀ (incs : List (Operand × Ident)), incs.length ≤ (phisString useHex cur incs).length
+  | [] => by simp
+  | [(o, b)] => by simp [phisString, sPhiOpen]
+  | (o, b) :: q :: ps => by
+    have := phisString_len (useHex := useHex) (cur := cur) (q :: ps)
+    simp only [phisString, List.length_append, List.length_cons, sPhiOpen] at this ⊢
+    omega
+
+theorem phisString_head (useHex : Int → Bool) (cur : Ty) (p : Operand × Ident) (ps : List (Operand × Ident)) :
+    (phisString useHex cur (p :: ps)).head? = some 91 := by
+  obtain ⟨o, b⟩ := p
+  cases ps with
+  | nil => simp [phisString, sPhiOpen]
+  | cons q qs => simp [phisString, sPhiOpen]
 
 /-! ### rows: the generic reader inverts the generic printer -/
 
@@ -241,6 +322,7 @@ def argOK : Arg → Prop
   | .lab i => identOK i
   | .retv none => True
   | .retv (some (t, o)) => operandOK o ∧ t ≠ .void
+  | .phis incs => incs ≠ [] ∧ ∀ p ∈ incs, incOK p
 
 /-- the arguments fill the non-literal slots, in order -/
 inductive Matches : List Slot → List Arg → Prop
@@ -251,98 +333,148 @@ inductive Matches : List Slot → List Arg → Prop
   | val (o : Operand) {fs : List Slot} {as : List Arg} : Matches fs as → Matches (.val :: fs) (.val o :: as)
   | lab (i : Ident) {fs : List Slot} {as : List Arg} : Matches fs as → Matches (.lab :: fs) (.lab i :: as)
   | retv (v : Option (Ty × Operand)) {fs : List Slot} {as : List Arg} : Matches fs as → Matches (.retv :: fs) (.retv v :: as)
+  | phis (incs : List (Operand × Ident)) {fs : List Slot} {as : List Arg} : Matches fs as → Matches (.phis :: fs) (.phis incs :: as)
 
 def startsComma : List Slot → Bool
   | [] => true
   | .lit (44 :: _) :: _ => true
   | _ => false
 
-/-- shape of a row: every literal starts with a comma, every other slot is followed by a literal or ends the row -/
+def opFollow : List Slot → Bool
+  | [] => true
+  | .lit (44 :: _) :: _ => true
+  | .lit (32 :: 116 :: _) :: _ => true
+  | _ => false
+
+def tyFollow : List Slot → Bool
+  | [] => true
+  | .lit (44 :: _) :: _ => true
+  | .lit [32] :: .phis :: _ => true
+  | _ => false
+
+/-- shape of a row: what follows each kind of slot; the two list-like slots end the row -/
 def fmtOK : List Slot → Bool
   | [] => true
-  | .lit s :: fs => (s.head? == some 44) && fmtOK fs
-  | _ :: fs => startsComma fs && fmtOK fs
+  | .lit _ :: fs => fmtOK fs
+  | .ty :: fs => tyFollow fs && fmtOK fs
+  | .tyval :: fs => opFollow fs && fmtOK fs
+  | .val :: fs => opFollow fs && fmtOK fs
+  | .lab :: fs => startsComma fs && fmtOK fs
+  | .retv :: fs => fs.isEmpty
+  | .phis :: fs => fs.isEmpty
 
-theorem endOK_print (useHex : Int → Bool) (cur : Ty) (fs : List Slot) (as : List Arg) (r : Bytes)
-    (hs : startsComma fs = true) (hr : endOK r = true) : endOK (printSlots useHex cur fs as ++ r) = true := by
-  cases fs with
-  | nil => simpa [printSlots] using hr
-  | cons f fs' =>
-    cases f with
-    | lit s =>
-      cases s with
-      | nil => simp [startsComma] at hs
-      | cons c s' =>
-        have hc : c = 44 := by
-          unfold startsComma at hs
-          split at hs
-          · rename_i heq; cases heq
-          · rename_i heq; injection heq with h1 _; injection h1 with h2; injection h2 with h3 _
-          · cases hs
-        subst hc; simp [printSlots, endOK]
-    | ty => simp [startsComma] at hs
-    | tyval => simp [startsComma] at hs
-    | val => simp [startsComma] at hs
-    | lab => simp [startsComma] at hs
-    | retv => simp [startsComma] at hs
+theorem endOK_print (useHex : Int → Bool) (cur : Ty) (fs : List Slot) (as : List Arg)
+    (hs : startsComma fs = true) : endOK (printSlots useHex cur fs as) = true := by
+  unfold startsComma at hs
+  split at hs
+  · simp [printSlots, endOK]
+  · simp [printSlots, endOK]
+  · cases hs
+
+theorem opEnd_print (useHex : Int → Bool) (cur : Ty) (fs : List Slot) (as : List Arg)
+    (hs : opFollow fs = true) : opEnd (printSlots useHex cur fs as) = true := by
+  unfold opFollow at hs
+  split at hs
+  · simp [printSlots, opEnd]
+  · simp [printSlots, opEnd]
+  · simp [printSlots, opEnd]
+  · cases hs
+
+theorem tyEnd_print (useHex : Int → Bool) (cur : Ty) (fs : List Slot) (as : List Arg)
+    (hs : tyFollow fs = true) (hm : Matches fs as) (ha : ∀ a ∈ as, argOK a) : tyEnd (printSlots useHex cur fs as) = true := by
+  unfold tyFollow at hs
+  split at hs
+  · simp [printSlots, tyEnd]
+  · simp [printSlots, tyEnd]
+  · rename_i rest
+    cases hm with
+    | lit s hm' =>
+      cases hm' with
+      | phis incs hm'' =>
+        have := ha (.phis incs) (by simp)
+        obtain ⟨hne, _⟩ := this
+        cases incs with
+        | nil => exact absurd rfl hne
+        | cons p ps =>
+          have hh := phisString_head useHex cur p ps
+          cases hps : phisString useHex cur (p :: ps) with
+          | nil => rw [hps] at hh; simp at hh
+          | cons c r => rw [hps] at hh; simp at hh; subst hh; simp [printSlots, hps, tyEnd]
+  · cases hs
+
+theorem matches_nil (as : List Arg) (h : Matches [] as) : as = [] := by cases h; rfl
 
 theorem read_print_slots (useHex : Int → Bool) (fs : List Slot) (as : List Arg) (hm : Matches fs as) :
-    ∀ (cur : Ty) (r : Bytes), fmtOK fs = true → (∀ a ∈ as, argOK a) → endOK r = true →
-      readSlots cur fs (printSlots useHex cur fs as ++ r) = some (as, r) := by
+    ∀ (cur : Ty), fmtOK fs = true → (∀ a ∈ as, argOK a) →
+      readSlots cur fs (printSlots useHex cur fs as) = some (as, []) := by
   induction hm with
-  | nil => intro cur r _ _ _; simp [readSlots, printSlots]
+  | nil => intro cur _ _; simp [readSlots, printSlots]
   | lit s hm ih =>
-    intro cur r hf ha hr
+    intro cur hf ha
+    simp only [fmtOK] at hf
+    simp only [printSlots, readSlots, TyParse.stripPrefix_append]
+    exact ih cur hf ha
+  | @ty t fs' as' hm ih =>
+    intro cur hf ha
     simp only [fmtOK, Bool.and_eq_true] at hf
-    simp only [printSlots, readSlots, List.append_assoc, TyParse.stripPrefix_append]
-    exact ih cur r hf.2 ha hr
-  | ty t hm ih =>
-    intro cur r hf ha hr
-    simp only [fmtOK, Bool.and_eq_true] at hf
-    simp only [printSlots, readSlots, List.append_assoc]
-    rw [ty_step t _ (endOK_print useHex t _ _ r hf.1 hr)]
-    simp only [ih t r hf.2 (fun a h => ha a (by simp [h])) hr]
-  | tyval t o hm ih =>
-    intro cur r hf ha hr
+    have ha' : ∀ a ∈ as', argOK a := fun a h => ha a (by simp [h])
+    simp only [printSlots, readSlots]
+    rw [ty_step t _ (tyEnd_print useHex t fs' as' hf.1 hm ha')]
+    simp only [ih t hf.2 ha']
+  | @tyval t o fs' as' hm ih =>
+    intro cur hf ha
     simp only [fmtOK, Bool.and_eq_true] at hf
     have ho : operandOK o := ha (.tyval t o) (by simp)
+    have ha' : ∀ a ∈ as', argOK a := fun a h => ha a (by simp [h])
     simp only [printSlots, readSlots, List.append_assoc, List.cons_append, List.nil_append]
     rw [tyval_step useHex t o _ ho]
-    simp only [readOperand_operandString useHex t o _ ho (endOK_print useHex t _ _ r hf.1 hr)]
-    simp only [ih t r hf.2 (fun a h => ha a (by simp [h])) hr]
-  | val o hm ih =>
-    intro cur r hf ha hr
+    simp only [readOperand_operandString useHex t o _ ho (opEnd_print useHex t fs' as' hf.1)]
+    simp only [ih t hf.2 ha']
+  | @val o fs' as' hm ih =>
+    intro cur hf ha
     simp only [fmtOK, Bool.and_eq_true] at hf
     have ho : operandOK o := ha (.val o) (by simp)
-    simp only [printSlots, readSlots, List.append_assoc]
-    simp only [readOperand_operandString useHex cur o _ ho (endOK_print useHex cur _ _ r hf.1 hr)]
-    simp only [ih cur r hf.2 (fun a h => ha a (by simp [h])) hr]
-  | lab i hm ih =>
-    intro cur r hf ha hr
+    have ha' : ∀ a ∈ as', argOK a := fun a h => ha a (by simp [h])
+    simp only [printSlots, readSlots]
+    simp only [readOperand_operandString useHex cur o _ ho (opEnd_print useHex cur fs' as' hf.1)]
+    simp only [ih cur hf.2 ha']
+  | @lab i fs' as' hm ih =>
+    intro cur hf ha
     simp only [fmtOK, Bool.and_eq_true] at hf
     have hi : identOK i := ha (.lab i) (by simp)
-    simp only [printSlots, readSlots, List.append_assoc]
-    simp only [readIdent_identString i _ hi (endOK_identEnd _ (endOK_print useHex cur _ _ r hf.1 hr))]
-    simp only [ih cur r hf.2 (fun a h => ha a (by simp [h])) hr]
+    have ha' : ∀ a ∈ as', argOK a := fun a h => ha a (by simp [h])
+    simp only [printSlots, readSlots]
+    simp only [readIdent_identString i _ hi (endOK_identEnd _ (endOK_print useHex cur fs' as' hf.1))]
+    simp only [ih cur hf.2 ha']
   | @retv v fs' as' hm ih =>
-    intro cur r hf ha hr
-    simp only [fmtOK, Bool.and_eq_true] at hf
+    intro cur hf ha
+    simp only [fmtOK, List.isEmpty_iff] at hf
+    subst hf
+    have := matches_nil as' hm; subst this
     cases v with
     | none =>
-      simp only [printSlots, readSlots, List.append_assoc]
-      have := ty_step .void (printSlots useHex cur fs' as' ++ r) (endOK_print useHex cur fs' as' r hf.1 hr)
-      simp only [tyString] at this
+      simp only [printSlots, readSlots, List.append_nil]
+      have := ty_step .void [] rfl
+      simp only [tyString, List.append_nil] at this
       rw [this]
-      simp only [ih cur r hf.2 (fun a h => ha a (by simp [h])) hr]
     | some p =>
       obtain ⟨t, o⟩ := p
       have hao : operandOK o ∧ t ≠ .void := ha (.retv (some (t, o))) (by simp)
-      simp only [printSlots, readSlots, List.append_assoc, List.cons_append, List.nil_append]
-      rw [tyval_step useHex t o _ hao.1]
-      have hro := readOperand_operandString useHex t o (printSlots useHex cur fs' as' ++ r) hao.1 (endOK_print useHex cur fs' as' r hf.1 hr)
-      have hih := ih cur r hf.2 (fun a h => ha a (by simp [h])) hr
-      cases t <;> first | exact absurd rfl hao.2 | simp only [hro, hih]
-
+      simp only [printSlots, readSlots, List.append_assoc, List.cons_append, List.nil_append, List.append_nil]
+      have hts := tyval_step useHex t o [] hao.1
+      simp only [List.append_nil] at hts
+      rw [hts]
+      have hro := readOperand_operandString useHex t o [] hao.1 rfl
+      simp only [List.append_nil] at hro
+      cases t <;> first | exact absurd rfl hao.2 | simp only [hro]
+  | @phis incs fs' as' hm ih =>
+    intro cur hf ha
+    simp only [fmtOK, List.isEmpty_iff] at hf
+    subst hf
+    have := matches_nil as' hm; subst this
+    have hp : incs ≠ [] ∧ ∀ p ∈ incs, incOK p := ha (.phis incs) (by simp)
+    simp only [printSlots, readSlots, List.append_nil]
+    rw [readPhis_print useHex cur incs hp.1 hp.2 _ (by have := phisString_len (useHex := useHex) (cur := cur) incs; omega)]
 
 /-! ### the row table -/
 
@@ -400,8 +532,7 @@ theorem readBody_print (useHex : Int → Bool) (i : Inst) (r : Row) (hr : rows[i
   have hfmt : fmtOK r.slots = true := by
     have := List.all_eq_true.mp rows_fmt r (List.mem_of_getElem? hr)
     simpa using this
-  have hs := read_print_slots useHex r.slots i.args hm r.cur0 [] hfmt ha rfl
-  simp only [List.append_nil] at hs
+  have hs := read_print_slots useHex r.slots i.args hm r.cur0 hfmt ha
   simp only [hs]
   obtain ⟨ires, irow, iargs⟩ := i
   cases ires <;> simp_all
